@@ -286,18 +286,40 @@ static int vl_map_remove(vl_map_t *m, int k)
 #define VL_DL_INIT(self)                 do { (self)->tail = NULL; } while (0)
 #define VL_DL_NODE(self, node, last)     do { (node)->prev = (last); (self)->tail = (node); } while (0)
 
+/* INPUTS.  Every nondeterministic input of a built container is taken IN THE HARNESS through VND(kind, name)
+ * (vprelude.h): cbmc picks it, the native replay (unit field `native: self`) reads the verifier's value from
+ * W_<name>.  VL_INPUTS(in, S) fills a vl_in_t with the length n<S> and, per node i, the placeholder flag ph<S>i,
+ * the key k<S>i and the value key v<S>i (S distinguishes several containers in one harness). */
+#define VL_MAXIN 5
+#if VL_MAXN > VL_MAXIN
+# error "VL_MAXN > 5: add more VL_IN_NODE lines to VL_INPUTS"
+#endif
+typedef struct { int n; int ph[VL_MAXIN]; int key[VL_MAXIN]; int val[VL_MAXIN]; } vl_in_t;
+
+#ifdef VL_FIXN
+# define VL_PICK_LEN(S) (VL_FIXN)
+#else
+# ifndef VL_MINN
+#  define VL_MINN 0
+# endif
+# define VL_PICK_LEN(S) ({ int vl_n_ = (int) VND(int, n ## S); __CPROVER_assume(vl_n_ >= VL_MINN && vl_n_ <= VL_MAXN); vl_n_; })
+#endif
+#define VL_IN_NODE(in, S, i) do { (in).ph[i] = VND(bool, ph ## S ## i) ? 1 : 0; (in).key[i] = (int) VND(int, k ## S ## i); \
+                                  (in).val[i] = (int) VND(int, v ## S ## i); } while (0)
+#define VL_INPUTS(in, S) do { (in).n = VL_PICK_LEN(S); VL_IN_NODE(in, S, 0); VL_IN_NODE(in, S, 1); VL_IN_NODE(in, S, 2); \
+                              VL_IN_NODE(in, S, 3); VL_IN_NODE(in, S, 4); } while (0)
+
 /* element of a general list: NULL placeholder or a velem with an arbitrary key */
-static spif_obj_t vl_data_list(vl_seq_t *m, int i)
+static spif_obj_t vl_data_list(vl_seq_t *m, const vl_in_t *in, int i)
 {
-    if (nondet_bool()) { m->e[i] = NULL; m->key[i] = 0; }
-    else { int k = nondet_int(); m->e[i] = (spif_obj_t) vl_elem(k); m->key[i] = k; }
+    if (in->ph[i]) { m->e[i] = NULL; m->key[i] = 0; }
+    else { m->e[i] = (spif_obj_t) vl_elem(in->key[i]); m->key[i] = in->key[i]; }
     return m->e[i];
 }
 /* element of a list without placeholders: a velem with an arbitrary key, any order */
-static spif_obj_t vl_data_any(vl_seq_t *m, int i)
+static spif_obj_t vl_data_any(vl_seq_t *m, const vl_in_t *in, int i)
 {
-    int k = nondet_int();
-    m->e[i] = (spif_obj_t) vl_elem(k); m->key[i] = k;
+    m->e[i] = (spif_obj_t) vl_elem(in->key[i]); m->key[i] = in->key[i];
     return m->e[i];
 }
 static int vl_has_placeholder(const vl_seq_t *m)
@@ -307,26 +329,25 @@ static int vl_has_placeholder(const vl_seq_t *m)
     return 0;
 }
 /* element of a vector: never NULL, keys ascending (<=) */
-static spif_obj_t vl_data_vec(vl_seq_t *m, int i)
+static spif_obj_t vl_data_vec(vl_seq_t *m, const vl_in_t *in, int i)
 {
-    int k = nondet_int();
-    __CPROVER_assume(i == 0 || m->key[i - 1] <= k);
-    m->e[i] = (spif_obj_t) vl_elem(k); m->key[i] = k;
+    __CPROVER_assume(i == 0 || m->key[i - 1] <= in->key[i]);
+    m->e[i] = (spif_obj_t) vl_elem(in->key[i]); m->key[i] = in->key[i];
     return m->e[i];
 }
 
 /* LT list pointer type, IT item pointer type, CLS class object, LINK = VL_SL | VL_DL,
- * m a vl_seq_t lvalue, n the length, DATA one of vl_data_list / vl_data_vec.
+ * m a vl_seq_t lvalue, in a filled vl_in_t, DATA one of vl_data_list / vl_data_any / vl_data_vec.
  * Every node and every element is a separate allocation. */
-#define VL_BUILD(self, LT, IT, CLS, LINK, m, n, DATA) do { \
-        int vl_i; int vl_n = (n); IT vl_last = NULL; \
+#define VL_BUILD(self, LT, IT, CLS, LINK, m, in, DATA) do { \
+        int vl_i; int vl_n = (in).n; IT vl_last = NULL; \
         (self) = (LT) malloc(sizeof(*(self))); \
         ((spif_obj_t) (self))->cls = (spif_class_t) (CLS); \
         (self)->len = vl_n; (self)->head = NULL; LINK ## _INIT(self); \
         (m).len = vl_n; \
         for (vl_i = 0; vl_i < vl_n; vl_i++) { \
             IT vl_node = (IT) malloc(sizeof(*vl_node)); \
-            vl_node->data = DATA(&(m), vl_i); \
+            vl_node->data = DATA(&(m), &(in), vl_i); \
             vl_node->next = NULL; \
             LINK ## _NODE(self, vl_node, vl_last); \
             if (vl_last) vl_last->next = vl_node; else (self)->head = vl_node; \
@@ -335,9 +356,9 @@ static spif_obj_t vl_data_vec(vl_seq_t *m, int i)
     } while (0)
 
 #ifdef VL_WITH_PAIRS
-static spif_obj_t vl_data_map(vl_map_t *m, int i)
+static spif_obj_t vl_data_map(vl_map_t *m, const vl_in_t *in, int i)
 {
-    int k = nondet_int(), v = nondet_int();
+    int k = in->key[i], v = in->val[i];
     spif_objpair_t p;
     __CPROVER_assume(i == 0 || m->k[i - 1] < k);
     m->k[i] = k; m->v[i] = v;
@@ -400,15 +421,15 @@ static spif_obj_t vl_data_map(vl_map_t *m, int i)
         } \
     } while (0)
 
-#define VL_BUILD_MAP(self, LT, IT, CLS, LINK, m, n) do { \
-        int vl_i; int vl_n = (n); IT vl_last = NULL; \
+#define VL_BUILD_MAP(self, LT, IT, CLS, LINK, m, in) do { \
+        int vl_i; int vl_n = (in).n; IT vl_last = NULL; \
         (self) = (LT) malloc(sizeof(*(self))); \
         ((spif_obj_t) (self))->cls = (spif_class_t) (CLS); \
         (self)->len = vl_n; (self)->head = NULL; LINK ## _INIT(self); \
         (m).len = vl_n; \
         for (vl_i = 0; vl_i < vl_n; vl_i++) { \
             IT vl_node = (IT) malloc(sizeof(*vl_node)); \
-            vl_node->data = vl_data_map(&(m), vl_i); \
+            vl_node->data = vl_data_map(&(m), &(in), vl_i); \
             vl_node->next = NULL; \
             LINK ## _NODE(self, vl_node, vl_last); \
             if (vl_last) vl_last->next = vl_node; else (self)->head = vl_node; \
@@ -455,21 +476,24 @@ static int vl_subset(const vl_seq_t *a, const vl_seq_t *b)
     return 1;
 }
 
-/* length of a built list: 0..VL_MAXN, or fixed by the unit (VL_FIXN) */
-static int vl_pick_len(void)
-{
-#ifdef VL_FIXN
-    return VL_FIXN;
+/* heap balance for the C06 units: cbmc has its own obligation (--memory-leak-check); the native replay (driver
+ * runs it with leak detection off) compares the allocator's live byte count before and after the harness body */
+#ifdef VERIF_NATIVE
+# include <sanitizer/allocator_interface.h>
+static size_t vl_heap_mark_;
+# define VL_HEAP_MARK()  do { vl_heap_mark_ = __sanitizer_get_current_allocated_bytes(); } while (0)
+# define VL_HEAP_CHECK() __CPROVER_assert(__sanitizer_get_current_allocated_bytes() == vl_heap_mark_, "memory-leak: the heap holds exactly what it held before")
 #else
-    int n = nondet_int();
-# ifdef VL_MINN
-    __CPROVER_assume(n >= VL_MINN && n <= VL_MAXN);
-# else
-    __CPROVER_assume(n >= 0 && n <= VL_MAXN);
-# endif
-    return n;
+# define VL_HEAP_MARK()  do { } while (0)
+# define VL_HEAP_CHECK() do { } while (0)
 #endif
-}
+
+/* "p points to n readable bytes": a cbmc primitive; natively ASan judges the accesses themselves */
+#ifdef VERIF_NATIVE
+# define VL_R_OK(p, n) (1)
+#else
+# define VL_R_OK(p, n) __CPROVER_r_ok((p), (n))
+#endif
 
 #endif /* VERIF_LISTS_H */
 
